@@ -252,6 +252,8 @@ class Ctx:
         self.depth = 0
         self.side_unknown = []
         self._pending = []
+        self.recheck_left = 0
+        self.rechecked = []
         self.concrete = None    # differential mode: label -> concrete input value
         self.record_smt = record_smt
         self.ghost = {}
@@ -426,7 +428,20 @@ class Ctx:
         r = self._check(neg)
         dt = time.time() - t0
         if r == z3.unsat:
-            self.obligations.append(Obligation(name, "unsat", dt, info=info, path=list(self.decisions), smt2=smt2))
+            solver_name = "z3"
+            if self.recheck_left > 0:
+                # thorough tier: independent second opinion on a sample of the VCs
+                self.recheck_left -= 1
+                from . import backend
+                r2 = backend.cvc5_check(self._smt2(neg), 30000)
+                self.rechecked.append((name, r2))
+                if r2 == "sat":
+                    self.obligations.append(Obligation(name, "unknown", dt, info={"solver_disagreement": "z3 unsat, cvc5 sat"},
+                                                       path=list(self.decisions)))
+                    return False
+                if r2 == "unsat":
+                    solver_name = "z3+cvc5"
+            self.obligations.append(Obligation(name, "unsat", dt, info=info, path=list(self.decisions), smt2=smt2, solver=solver_name))
             if not self.pure:
                 self.pc_add(cond.e)
             return True
